@@ -3,6 +3,8 @@
 package verifharness
 
 import (
+	"os"
+	"strings"
 	"testing"
 	"time"
 
@@ -69,9 +71,29 @@ func c14Observe(a *chain.App, ctx sdk.Context, w *c12World) c14Started {
 	return o
 }
 
-// TestC14: every handler of the vault, locker, lend, liquidity and auctionsV2 msg servers x breaker
-// on/off x ESM none / in cool-off / after cool-off x subsets of inactive price feeds on the
-// prepared state; then the liquidation sweeps and the auction starters under breaker on/off.
+// c14Ctl: one control state of the matrix
+type c14Ctl struct {
+	breaker bool
+	esm     int
+	mask    int
+}
+
+// TestC14: every handler of the vault, locker, lend, liquidity and auctionsV2 msg servers on the
+// prepared state, each run on its own branch of the store:
+//
+//	phase 1 (always): the message with its default amount x breaker on/off x ESM none / in cool-off /
+//	  after cool-off x {all prices active, none}, and - without controls - EVERY subset of the priced
+//	  assets inactive; then, for every amount field of the message and every boundary amount of the
+//	  state (c14AmountsFor: 1, and v-1, v, v+1 for every amount v stored in a position record, the whole
+//	  debts and the wallet balances: the amounts that select early-return branches) x {no control,
+//	  breaker, ESM in cool-off, ESM after cool-off, each single price inactive};
+//	phase 2 (thorough tier, VERIF_SEARCH=1, or the handlers listed in VERIF_FOCUS): every amount x every
+//	  control state x every subset of inactive prices.
+//
+// For every (message, amount) the uncontrolled all-prices-active run is the reference: its class,
+// its resulting state, and the set of oracle prices it READ (store trace of the market store).
+// Case ids are stable: phase 2 ids follow phase 1 ids whether or not phase 2 is executed, and
+// VERIF_CASE re-runs exactly one of either phase.
 func TestC14(t *testing.T) {
 	c12SetPrefixes()
 	a, base := newApp(t)
@@ -79,65 +101,167 @@ func TestC14(t *testing.T) {
 	defer tr.close()
 	r := newRng(seed())
 	only := envInt("VERIF_CASE", -1)
-	allMasks := envInt("VERIF_ALLMASKS", 0) == 1
+	focus := map[string]bool{}
+	for _, h := range strings.Split(os.Getenv("VERIF_FOCUS"), ",") {
+		if h = strings.TrimSpace(h); h != "" {
+			focus[h] = true
+		}
+	}
+	phase2All := envInt("VERIF_ALLMASKS", 0) == 1 || envInt("VERIF_SEARCH", 0) == 1
 	w := c12Setup(t, a, base)
 	np := len(w.PriceAssets)
 	full := (1 << np) - 1
 	ci := 0
+	cands := c14Candidates(a, w.Ctx, w)
 
-	pick := func(mi int, signerOwner bool) c12Msg {
-		if signerOwner {
-			return c12Messages(w, w.Owner)[mi]
+	if len(focus) > 0 && only < 0 {
+		tr.p("# focus %s", os.Getenv("VERIF_FOCUS")) // tells the runner that the other handlers were left out on purpose
+	}
+	for _, m := range c12Messages(w, w.Owner) {
+		if len(c14AmountFields(m.Msg)) == 0 {
+			tr.p("# no-amount-field %s", m.Handler)
 		}
-		return c12Messages(w, w.Other1)[mi]
 	}
 	nmsgs := len(c12Messages(w, w.Owner))
-	for mi := 0; mi < nmsgs; mi++ {
-		proto := c12Messages(w, w.Owner)[mi]
-		// position messages are signed by the owner, opening messages by a fresh funded account
-		// unless only the owner can run them
-		signerOwner := proto.NamesPosition
-		if !signerOwner {
-			cctx, _ := w.Ctx.CacheContext()
-			if cls, _, _ := execMsg(a, cctx, c12Messages(w, w.Other1)[mi].Msg); cls != "ok" {
-				signerOwner = true
+	type variant struct {
+		field *c14AmtField
+		amt   sdk.Int
+	}
+	for phase := 1; phase <= 2; phase++ {
+		for mi := 0; mi < nmsgs; mi++ {
+			proto := c12Messages(w, w.Owner)[mi]
+			runPhase := phase == 1 || phase2All || focus[proto.Handler]
+			if phase == 1 && len(focus) > 0 && !focus[proto.Handler] && only < 0 {
+				runPhase = false // a directed search concentrates on the named handlers
 			}
-		}
-		app := proto.App
-		if app == 0 {
-			app = w.VaultApp
-		}
-		// baseline: no control, every price active
-		bctx, _ := w.Ctx.CacheContext()
-		baseCls, _, _ := c12RunMsg(a, bctx, pick(mi, signerOwner).Msg)
-		baseDigest := storeDigest(a, bctx, c14StoresNoMarket...)
-
-		masks := []int{0, full}
-		if allMasks {
-			masks = masks[:0]
-			for m := 0; m <= full; m++ {
-				masks = append(masks, m)
-			}
-		}
-		for _, breaker := range []bool{false, true} {
-			for esm := 0; esm < 3; esm++ {
-				ms := append([]int{}, masks...)
-				if !allMasks {
-					// two random proper subsets per control state
-					ms = append(ms, 1<<r.intn(np), r.intn(full+1))
+			// position messages are signed by the owner, opening messages by a fresh funded account
+			// unless only the owner can run them
+			signerOwner := proto.NamesPosition
+			if !signerOwner && (runPhase || only >= 0) {
+				cctx, _ := w.Ctx.CacheContext()
+				if cls, _, _ := execMsg(a, cctx, c12Messages(w, w.Other1)[mi].Msg); cls != "ok" {
+					signerOwner = true
 				}
-				for _, mask := range ms {
-					id := ci
-					ci++
+			}
+			signer := w.Other1
+			if signerOwner {
+				signer = w.Owner
+			}
+			app := proto.App
+			if app == 0 {
+				app = w.VaultApp
+			}
+			fields := c14AmountFields(proto.Msg)
+			variants := []variant{{}}
+			for fi := range fields {
+				for _, v := range c14AmountsFor(fields[fi], cands) {
+					variants = append(variants, variant{&fields[fi], v})
+				}
+			}
+			for _, vr := range variants {
+				build := func() sdk.Msg {
+					m := c12Messages(w, signer)[mi].Msg
+					if vr.field != nil {
+						c14SetAmount(m, *vr.field, vr.amt)
+					}
+					return m
+				}
+				tag := "default"
+				if vr.field != nil {
+					tag = vr.field.name + "=" + vr.amt.String()
+				}
+				var ctls []c14Ctl
+				switch {
+				case phase == 1 && vr.field == nil:
+					for _, breaker := range []bool{false, true} {
+						for esm := 0; esm < 3; esm++ {
+							if !breaker && esm == 0 {
+								for m := 0; m <= full; m++ {
+									ctls = append(ctls, c14Ctl{false, 0, m})
+								}
+							} else {
+								ctls = append(ctls, c14Ctl{breaker, esm, 0}, c14Ctl{breaker, esm, full})
+							}
+						}
+					}
+				case phase == 1:
+					// filled in below (depends on which prices the reference run reads)
+				default:
+					for _, breaker := range []bool{false, true} {
+						for esm := 0; esm < 3; esm++ {
+							for m := 0; m <= full; m++ {
+								ctls = append(ctls, c14Ctl{breaker, esm, m})
+							}
+						}
+					}
+				}
+				if phase == 1 && vr.field != nil {
+					// boundary amounts: no control, breaker, both ESM phases, and each single price inactive
+					// (executed only for the prices the reference run reads; the ids of the others stay unused)
+					ctls = []c14Ctl{{false, 0, 0}, {true, 0, 0}, {false, 1, 0}, {false, 2, 0}}
+					for i := 0; i < np; i++ {
+						ctls = append(ctls, c14Ctl{false, 0, 1 << i})
+					}
+				}
+				first := ci
+				ci += len(ctls)
+				if !runPhase && only < 0 {
+					continue
+				}
+				if only >= 0 && (only < first || only >= ci) {
+					continue
+				}
+				// reference: no control, every price active.  Once traced (which prices are read), once plain.
+				rctx, _ := w.Ctx.CacheContext()
+				_, _, reads := c14TracedRun(a, rctx, w, build())
+				bctx, _ := w.Ctx.CacheContext()
+				baseCls, _, _ := c12RunMsg(a, bctx, build())
+				baseDigest := storeDigest(a, bctx, c14StoresNoMarket...)
+				// is the all-active outcome sensitive to the VALUE of price bit i ?  (probed lazily, cached)
+				sensitive := map[int]bool{}
+				usesPrice := func(i int) bool {
+					if v, ok := sensitive[i]; ok {
+						return v
+					}
+					res := false
+					for _, f := range []func(uint64) uint64{func(p uint64) uint64 { return p * 1000 }, func(p uint64) uint64 { return p/1000 + 1 }} {
+						pctx, _ := w.Ctx.CacheContext()
+						pid := w.PriceAssets[i]
+						setPrice(a, pctx, pid, f(w.Prices[pid]), true)
+						pcls, _, _ := c12RunMsg(a, pctx, build())
+						if pcls != baseCls || storeDigest(a, pctx, c14StoresNoMarket...) != baseDigest {
+							res = true
+						}
+					}
+					sensitive[i] = res
+					return res
+				}
+				for k, ctl := range ctls {
+					id := first + k
 					if only >= 0 && id != only {
 						continue
 					}
+					if phase == 1 && vr.field != nil && ctl.mask != 0 && ctl.mask&reads == 0 && only < 0 {
+						continue // a feed the run never reads
+					}
 					ctx, _ := w.Ctx.CacheContext()
-					c14SetControls(a, ctx, w, app, breaker, esm, mask)
-					cls, kind, changed := c12RunMsg(a, ctx, pick(mi, signerOwner).Msg)
-					same := storeDigest(a, ctx, c14StoresNoMarket...) == baseDigest
-					tr.p("case %d c14 %s %d %s %d %d %d %s %s %s %s %s", id, proto.Handler, app, b2s(breaker), esm, mask, np,
-						cls, kind, b2s(changed), baseCls, b2s(same))
+					c14SetControls(a, ctx, w, app, ctl.breaker, ctl.esm, ctl.mask)
+					msg := build()
+					cls, kind, changed := c12RunMsg(a, ctx, msg)
+					// only a successful run is compared with the reference outcome
+					same, needed := false, 0
+					if cls == "ok" {
+						same = storeDigest(a, ctx, c14StoresNoMarket...) == baseDigest
+						// an inactive feed that the all-active run reads AND whose value its outcome depends on
+						for i := 0; i < np; i++ {
+							if ctl.mask&reads&(1<<i) != 0 && usesPrice(i) {
+								needed |= 1 << i
+							}
+						}
+					}
+					tr.p("case %d c14 %s %d %s %d %d %d %s %s %s %s %s %d %d %s", id, proto.Handler, app, b2s(ctl.breaker), ctl.esm, ctl.mask, np,
+						cls, kind, b2s(changed), baseCls, b2s(same), reads, needed, tag)
+					tr.p("  msg %T %s", msg, msg.String())
 				}
 			}
 		}
